@@ -322,6 +322,20 @@ fn tags(p: &Pat) -> Vec<&'static str> {
         }
     }
     if tagged { t.push("chain-piece-variable-length-bounded-gap"); }
+    // the same root cause for a GREEDY regexp: the longest end of a chain piece is kept, so a piece of
+    // variable length in front of ANY split point can hide the occurrence that needs a shorter end
+    let greedy_re = matches!(p, Pat::Regexp(..)) && items.iter().any(|x| matches!(x, Re::Rep(_, _, _, true)));
+    if greedy_re {
+        let mut piece_start = 0usize;
+        let mut tagged = false;
+        for (i, x) in items.iter().enumerate() {
+            if i >= 1 && i + 1 < items.len() && splits(x) {
+                if items[piece_start..i].iter().any(|x| fixed_len(x).is_none()) { tagged = true; }
+                piece_start = i + 1;
+            }
+        }
+        if tagged { t.push("chain-piece-variable-length-greedy"); }
+    }
     // a `wide` regexp with a jump over the chaining threshold between two pieces: it is split into a
     // chain, and for a chain the gap is only a distance (known finding: the gap is not required to
     // consist of wide characters)
@@ -931,6 +945,12 @@ fn corpus() -> Vec<(Pat, Vec<u8>, Option<usize>)> {
          { let mut d = b".aBB".to_vec(); d.extend(vec![b'x'; 201]); d.extend(b"\n\x7f"); d }, None),
         // remaining known finding: a wide regexp split at a large gap accepts a gap that is not wide
         (Pat::Regexp(Re::Cat(vec![lit(b"ab"), Re::Rep(Box::new(any()), 0, None, true), lit(b"cd")]), rm(&|m| { m.dotall = true; m.wide = true; })), b"a\0b\0xc\0d\0".to_vec(), None),
+        // ... nor a gap of the right number of wide characters: /_X.{5,209}_X/s wide with 3 wide characters between
+        (Pat::Regexp(Re::Cat(vec![lit(b"_X"), Re::Rep(Box::new(any()), 5, Some(209), true), lit(b"_X")]), rm(&|m| { m.dotall = true; m.wide = true; })),
+         b"_\0X\0.\0.\0.\0_\0X\0".to_vec(), None),
+        // known finding: for a greedy regexp the LONGEST end of a chain piece is kept: /aba?a.*abX/s misses abaabX
+        (Pat::Regexp(Re::Cat(vec![lit(b"ab"), Re::Rep(Box::new(lit(b"a")), 0, Some(1), true), lit(b"a"), Re::Rep(Box::new(any()), 0, None, true), lit(b"abX")]),
+                     rm(&|m| { m.dotall = true; })), b"abaabX".to_vec(), None),
         // xor + fullword (differences.md)
         (Pat::Text(b"mississippi".to_vec(), tm(&|m| { m.xor = Some((1, 1)); m.xor_explicit = true; m.fullword = true; })), b"{lhrrhrrhqqh} !lhrrhrrhqqh!".to_vec(), None),
     ]
